@@ -49,13 +49,16 @@ Section Catalog.
         let s2 := register_leaf (register_leaf s0 (LUid RTL u) (PRecords u)) (LUid RTR u) (PRecords u) in
         if cached then
           (* _sql_to_splink_dataframe(cached_sql, ..., physical_name = __splink__realtime_compare_records_<uid>) *)
-          let p := PL K (LUid RT u) in
-          let s3 := set_db K s2 (aset K keqb (st_db K s2) p
-                                      {| e_prov := PDerived RT 0 [PRecords u; PRecords u]; e_origin := Splink |}) in
           if fx715 (st_fix K s) then
-            (set_cache K s3 (aset K keqb (st_cache K s3) p
-                                  {| h_templ := RT; h_phys := p; h_src := Leaf (LUid RT u); h_cbs := true |}), [Exec RT])
-          else (s3, [Exec RT])
+            (* repaired tree: created_by_splink = True and cache[physical_name] = frame, i.e. exactly what an uncached
+               pipeline run does; the unique <uid> suffix of the name is modelled as the hash key of the (unique) SQL *)
+            let '(s3, _, ev) := exec_pipeline K keqb hash s2 RT (Cte RT 0 [Leaf (LUid RTL u); Leaf (LUid RTR u)])
+                                              [RTL; RTR] [] false in
+            (s3, ev)
+          else
+            let p := PL K (LUid RT u) in
+            (set_db K s2 (aset K keqb (st_db K s2) p
+                               {| e_prov := PDerived RT 0 [PRecords u; PRecords u]; e_origin := Splink |}), [Exec RT])
         else
           let '(s3, _, ev) := exec_pipeline K keqb hash s2 PREDICT
                                             (Cte PREDICT 999 [Leaf (LUid RTL u); Leaf (LUid RTR u)]) [RTL; RTR]
@@ -66,12 +69,12 @@ Section Catalog.
   Definition crun (s : state K) (cs : list cop) : state K := fold_left (fun s c => fst (cstep s c)) cs s.
 
   (* guards of the theorems *)
-  Definition cop_safe (c : cop) : bool :=
+  Definition cop_safe (fx : fixes) (c : cop) : bool :=
     match c with
     | COp o => op_ok_hashed o && negb (match o with ChangeInputInvalidate _ => true | _ => false end)
     | CRegisterTable _ ow _ => negb ow
     | CDropTable _ force => negb force
-    | CRealtime cached => negb cached
+    | CRealtime cached => negb cached || fx715 fx      (* the cached-SQL path is safe on the repaired tree only *)
     end.
 
   (* initial database: input tables plus other user tables (plain names) *)
